@@ -181,6 +181,18 @@ public:
     virtual void
     reset();
 
+#if defined(APACHE_XALAN_C_VERIF)
+    // Verification hook:  sizes of the internal stacks, which must be back
+    // to their idle values between evaluations.
+    void
+    verifSnapshot(XalanVector<XalanSize_t>&     theSizes) const
+    {
+        theSizes.push_back(m_currentNodeStack.size());
+        theSizes.push_back(m_contextNodeListStack.size());
+        theSizes.push_back(m_prefixResolver == 0 ? 0 : 1);
+    }
+#endif
+
     virtual XalanNode*
     getCurrentNode() const;
 
